@@ -240,6 +240,7 @@ def _r12h(rep):
             # operations): its orientation is decided by R12k; the site is listed as not decided
             rep.unknown(f"R12h: {qn}: {core.norm(str(e_), 140)}")
     _r12k(rep)
+    _r12n(rep)
     from rules import shared_readonly
 
     from rules import shared_viewupdate
@@ -285,6 +286,78 @@ def _r12h(rep):
             ok_pos = ok_pos and len(init) == 1 and core.src(init[0].value) == "0"
     rep.instance("R12h", GV, f"{G}._calculate_group_velocity_at_q", "gv[pos : pos + len(deg)] = perturb(ddms, eigvecs[:, deg]); pos += len(deg)", ok_pos, "the velocities of a degenerate set are not stored at the positions of its bands", line=cq.lineno)
 
+
+
+def _r12n(rep):
+    """The expanded and the compressed crystal reach the Grueneisen classes under their own parameter names."""
+    rep.rule("R12n", "Grueneisen wiring: in PhonopyGruneisen the dynamical matrix handed to the parameter dynmat_plus of GruneisenMesh / GruneisenBandStructure comes from the expanded crystal (self._phonon_plus), dynmat_minus from the compressed one and dynmat from the reference (positional arguments, starred sequences built by helpers and loops included): swapped, D+ - D- changes sign while an explicitly given delta_strain does not, and every mode Grueneisen parameter comes out with the opposite sign", 6)
+    AG_ = "phonopy/api_gruneisen.py"
+    cls = core.find_def(AG_, "PhonopyGruneisen")
+    methods = {m.name: m for m in cls.body if isinstance(m, ast.FunctionDef)}
+    sigs = {}
+    for rel, cname in (("phonopy/gruneisen/mesh.py", "GruneisenMesh"), ("phonopy/gruneisen/band_structure.py", "GruneisenBandStructure")):
+        init = core.find_def(rel, f"{cname}.__init__")
+        sigs[cname] = [a.arg for a in init.args.args if a.arg != "self"]
+
+    def seq_of(e, fn, depth=0):
+        """source texts of the elements of a sequence expression, in order; None when it cannot be told"""
+        if isinstance(e, (ast.Tuple, ast.List)):
+            return [core.src(x) for x in e.elts]
+        if isinstance(e, ast.ListComp) and len(e.generators) == 1 and isinstance(e.generators[0].iter, (ast.Tuple, ast.List)) and isinstance(e.generators[0].target, ast.Name):
+            v = e.generators[0].target.id
+            return [core.src(e.elt).replace(v, core.src(x)) for x in e.generators[0].iter.elts]
+        if isinstance(e, ast.Call) and core.src(e.func) in ("tuple", "list") and e.args:
+            inner = e.args[0]
+            if isinstance(inner, ast.GeneratorExp):
+                inner = ast.ListComp(elt=inner.elt, generators=inner.generators)
+            return seq_of(inner, fn, depth)
+        if isinstance(e, ast.Call) and isinstance(e.func, ast.Attribute) and core.src(e.func.value) == "self" and e.func.attr in methods and depth < 3:
+            callee = methods[e.func.attr]
+            rets = [r.value for r in ast.walk(callee) if isinstance(r, ast.Return) and r.value is not None and not (isinstance(r.value, ast.Constant))]
+            outs = [seq_of(r, callee, depth + 1) for r in rets]
+            return outs[0] if outs and all(o == outs[0] for o in outs) else None
+        if isinstance(e, ast.Name) and fn is not None:
+            asg = [st for st in ast.walk(fn) if isinstance(st, ast.Assign) and len(st.targets) == 1 and isinstance(st.targets[0], ast.Name) and st.targets[0].id == e.id]
+            if len(asg) == 1 and isinstance(asg[0].value, ast.List) and not asg[0].value.elts:
+                # filled by append in a loop over a literal sequence
+                out = []
+                for lp in [x for x in ast.walk(fn) if isinstance(x, ast.For) and isinstance(x.iter, (ast.Tuple, ast.List)) and isinstance(x.target, ast.Name)]:
+                    apps = [c for c in ast.walk(lp) if isinstance(c, ast.Call) and isinstance(c.func, ast.Attribute) and c.func.attr == "append" and core.src(c.func.value) == e.id and c.args]
+                    for el in lp.iter.elts:
+                        for c in apps:
+                            out.append(core.src(c.args[0]).replace(lp.target.id, core.src(el)))
+                return out or None
+            if len(asg) == 1:
+                return seq_of(asg[0].value, fn, depth + 1)
+        return None
+
+    n = 0
+    for m in methods.values():
+        for c in ast.walk(m):
+            if not (isinstance(c, ast.Call) and isinstance(c.func, ast.Name) and c.func.id in sigs):
+                continue
+            params = sigs[c.func.id]
+            flat = []
+            for a in c.args:
+                if isinstance(a, ast.Starred):
+                    sq = seq_of(a.value, m)
+                    if sq is None:
+                        raise AnalysisError(f"R12n: cannot expand '*{core.src(a.value)}' in the call of {c.func.id}")
+                    flat += sq
+                else:
+                    flat.append(core.src(a))
+            bound = dict(zip(params, flat))
+            bound.update({k.arg: core.src(k.value) for k in c.keywords if k.arg})
+            for pname, want in (("dynmat", None), ("dynmat_plus", "plus"), ("dynmat_minus", "minus")):
+                if pname not in bound:
+                    raise AnalysisError(f"R12n: {c.func.id}(...) in {m.name} does not receive '{pname}'")
+                src_ = bound[pname]
+                ok = (want in src_ and not any(o in src_ for o in ("plus", "minus") if o != want)) if want else not ("plus" in src_ or "minus" in src_)
+                n += 1
+                rep.instance("R12n", AG_, f"PhonopyGruneisen.{m.name}", f"{c.func.id}({pname}={core.norm(src_, 50)})", ok,
+                             f"the parameter '{pname}' of {c.func.id} receives '{core.norm(src_, 60)}': the dynamical matrices of the expanded and the compressed crystal are exchanged (or the reference is not the reference), so with an explicit delta_strain the mode Grueneisen parameters change sign", line=c.lineno)
+    if n < 6:
+        raise AnalysisError(f"R12n: only {n} dynamical-matrix arguments of the Grueneisen classes found in PhonopyGruneisen")
 
 
 def _r12k(rep):
@@ -596,6 +669,7 @@ def selftest():
     V = []
     b = lambda name, file, old, new, rule, expect="", **kw: V.append(dict(name=name, kind="break", file=file, old=old, new=new, rule=rule, expect=expect, **kw))
     n = lambda name, file, old, new, **kw: V.append(dict(name=name, kind="neutral", file=file, old=old, new=new, **kw))
+    b("Grueneisen mesh receives the compressed crystal as dynmat_plus", "phonopy/api_gruneisen.py", "            self._phonon_plus.dynamical_matrix,\n            self._phonon_minus.dynamical_matrix,\n            mesh,", "            self._phonon_minus.dynamical_matrix,\n            self._phonon_plus.dynamical_matrix,\n            mesh,", "R12n", "set_mesh")
     b("chain rule loses the 1/2", GV, "                gv[i, :] *= self._factor**2 / f / 2", "                gv[i, :] *= self._factor**2 / f", "R12a", "gv[i, :]")
     b("chain rule with one factor", GV, "                gv[i, :] *= self._factor**2 / f / 2", "                gv[i, :] *= self._factor / f / 2", "R12a", "gv[i, :]")
     b("finite difference divided by the step only", GV, "_delta_dynamical_matrix(q, dq, self._dynmat) / self._q_length / 2", "_delta_dynamical_matrix(q, dq, self._dynmat) / self._q_length", "R12a", "_get_dD_FD")
